@@ -225,13 +225,13 @@ func C15() *check.Property {
 		Title:    "Re-subscribing operators run attempts in sequence, the right number of times",
 		Patterns: CorePatterns,
 		Scope:    []string{ro},
-		Rules:    []check.Rule{ruleSequentialAttempts(), ruleRetryCtx(), ruleSequentialInnerGuard(), ruleTerminalPropagation(), ruleStateLevel(), ruleAddAfterClose(), ruleReadAfterWait(), ruleFinalizerDiscipline()},
+		Rules:    []check.Rule{ruleSequentialAttempts(), ruleRetryCtx(), ruleSequentialInnerGuard(), ruleTerminalPropagation(), ruleStateLevel(), ruleAddAfterClose(), ruleReadAfterWait(), ruleFinalizerDiscipline(), ruleLoopStopsAfterError()},
 		Explanation: "Structural clause only. For the seven re-subscribing operators the property names, the model's subscribe sites that lie in a loop or in a repeatedly invoked slot must be awaited (Wait on the same subscription, same iteration, after the site) " +
 			"or be subscribed from the terminal slot of the previous attempt, so that two attempts are never alive together; each attempt's next slot must forward to the destination; Retry's two context checks must exist, emit the context error and return. " +
 			"This is a necessary condition of 'strictly one after another'; removing the Wait, moving it, or dropping a context test is reported.",
 		NotDecided:  "the NUMBER of attempts against the configuration (retry counts, ResetOnSuccess, loop conditions) and the order of forwarded values are value-level and not decided; nor is 'released before the next one starts' beyond the awaited subscription being closed when Wait returns.",
 		Assumptions: []string{"Wait returns only once the subscription is closed (C06)"},
 		Floors:      map[string]int{"resubscribe_sites": 7},
-		Controls:    map[string]string{"zz_verif_controls_c15.go": roControl(controlsC15), "zz_verif_controls_c05.go": roControl(controlsC05), "zz_verif_controls_c12.go": roControl(controlsC12), "zz_verif_controls_c15b.go": roControl(controlsReadAfterWait)},
+		Controls:    map[string]string{"zz_verif_controls_c15.go": roControl(controlsC15), "zz_verif_controls_c05.go": roControl(controlsC05), "zz_verif_controls_c12.go": roControl(controlsC12), "zz_verif_controls_c15b.go": roControl(controlsReadAfterWait + controlsLoopStops)},
 	}
 }
